@@ -20,6 +20,7 @@ from ..astutil import text, access_path, calls_in, func_params, stmts_of, is_con
 from ..jobmodel import JobModel
 from ..loader import where, AnalysisError
 from ..paths import Enumerator
+from ..terms import Terms, PathEnv
 
 PERSISTENT = ("costs", "costs_signed", "state", "vector", "population_id", "custom")
 
@@ -236,6 +237,20 @@ def r3_conn(ctx, repo, cls):
             if e.kind == "return":
                 if access_path(e.node.value) != created or created is None:
                     bad = bad or (e.node, "thread-safe conn() returns %s, not a connection created in this call" % text(e.node.value))
+    # a connection that cannot write cannot roll back the hot journal a crashed writer left behind:
+    # the view of a store must be opened read-write capable (plain path / mode=rw), never mode=ro / immutable
+    TC = Terms(fn)
+    for s_ in stmts_of(fn):
+        if isinstance(s_, (ast.For, ast.While, ast.If, ast.Try, ast.With)):
+            continue
+        for c in calls_in(s_):
+            if (access_path(c.func) or "").endswith("sqlite3.connect") and c.args:
+                a0 = TC.expand(c.args[0], at=s_)
+                lits = [n_.value for n_ in ast.walk(a0) if isinstance(n_, ast.Constant) and isinstance(n_.value, str)]
+                uri = any(k.arg == "uri" and not (is_const(k.value) and const_value(k.value) is False) for k in c.keywords)
+                if uri and any(("mode=ro" in l_ or "immutable=1" in l_) for l_ in lits):
+                    bad = bad or (c, "the store is opened through a read-only URI (%s): such a connection cannot roll back the rollback journal of a writer that died inside "
+                                  "a transaction, so the store left by a crash cannot be read (sqlite3.OperationalError) although every committed design is in it" % text(a0)[:120])
     if bad:
         ctx.violated("R3", C, where(mod, bad[0]), bad[1], key="thread-safe-connection")
     elif n == 0:
